@@ -510,6 +510,7 @@ def coq_terms(spec, info):
     full = f"(mkD {R.nl(range(len(spec['nodes'])))} [" + "; ".join(f"({num[_h(a)]}, {num[_h(b)]})" for a, b in spec["edges"]) + "])"
     c0 = ccirc(tags, num, spec["wire_names"], info["circuit"].queue)
     ps = []
+    extra = []
     k = spec["k"]
     for e in info["log"]:
         cls, b = e["cls"], e["before"]
@@ -517,6 +518,11 @@ def coq_terms(spec, info):
             ps.append(f"(PPre {R.nl([num[_h(w)] for w in e['snap']['wires'][len(b['wires']):]])})")
         elif cls in ("Random", "Subgraph", "ReverseTraversal", "StarConnectivityPlacer"):
             ps.append(f"(PPlace {R.nl([num[_h(w)] for w in e['after_wires']])})")
+            if cls == "StarConnectivityPlacer":
+                mids = [v for v in dnodes if dev.degree(v) == len(dnodes) - 1]
+                if len(mids) == 1 and mids[0] in b["wires"]:
+                    extra.append(f"star_placer_check {b['wires'].index(mids[0])} {ccirc(tags, num, b['wires'], b['queue'])} "
+                                 f"{R.nl([num[_h(w)] for w in e['after_wires']])}")
         elif cls in ("Sabre", "ShortestPaths", "StarConnectivityRouter"):
             routed, layout = e["result"]
             try:
@@ -551,7 +557,7 @@ def coq_terms(spec, info):
     rterm = None
     if spec.get("on_qubits") is not None:
         rterm = f"restrict_check {full} {R.nl([num[_h(v)] for v in spec['on_qubits']])}"
-    return {"term": term, "restrict": rterm, "dnodes": [num[_h(v)] for v in dnodes],
+    return {"term": term, "restrict": rterm, "extra": extra, "dnodes": [num[_h(v)] for v in dnodes],
             "dedges": {frozenset((num[_h(a)], num[_h(b)])) for a, b in dev.edges}}
 
 
@@ -655,6 +661,37 @@ def default_transpiler_cases(run, found, stats, rng):
         _Global._backend, _Global._transpiler = saved
 
 
+def restrict_cases(run, found, stats, rng):
+    """restrict_connectivity_qubits on selections that must be refused (not device nodes / not
+    connected / empty) and on random selections: model and implementation accept the same inputs"""
+    from qibo.transpiler.pipeline import restrict_connectivity_qubits
+    exprs, expect = [], []
+    for devname, g0 in devices(rng, "quick"):
+        n = g0.number_of_nodes()
+        nodes = list(g0.nodes())
+        full = f"(mkD {R.nl(nodes)} [" + "; ".join(f"({a}, {b})" for a, b in g0.edges()) + "])"
+        sels = [rng.sample(nodes, rng.randint(1, n)) for _ in range(6)] + [[nodes[0], n + 3], []]
+        for sel in sels:
+            try:
+                r = restrict_connectivity_qubits(g0, list(sel))
+                raised = False
+            except Exception:
+                raised = True
+            run.case(["restrict", devname, sel], True)
+            stats["restrict_selections"] = stats.get("restrict_selections", 0) + 1
+            exprs.append(f"restrict_raises {full} {R.nl(sel)}")
+            expect.append((devname, sel, raised))
+    vals = run.coq_eval("C11_restrict.v", HEADER, exprs, timeout=300)
+    run.oblige("model_restrict_cases", vals is not None, "correspondence")
+    if vals is None:
+        run.find("coq:C11_restrict", "generated file does not compile", concrete=False)
+        return
+    for v, (devname, sel, raised) in zip(vals, expect):
+        if (v == "true") != raised:
+            found.setdefault("model:restrict_raises", (f"restrict_connectivity_qubits({devname}, {sel}): implementation raises={raised}, model raises={v}",
+                                                       {"device": devname, "selection": sel, "model_only": True}))
+
+
 RULE = ("cases = device (line/star/ring/grid/T, relabelled nodes) x optional on_qubits restriction x circuit on a "
         "permuted subset of wire names (k <= device size) x placer {none, Random, Subgraph, ReverseTraversal, Star} x "
         "router {Sabre, ShortestPaths, Star} x native set {none (exact integer data), 6 sets}; non-trivial = the output "
@@ -709,6 +746,7 @@ def main(run):
             exprs.append(t["term"])
             if t["restrict"]:
                 exprs.append(t["restrict"])
+            exprs += t["extra"]
         vals = run.coq_eval(f"C11_cases_{b // CH}.v", HEADER, exprs, timeout=900)
         run.oblige(f"model_replay_{b // CH}", vals is not None, "correspondence")
         if vals is None:
@@ -721,6 +759,8 @@ def main(run):
             pl = spec["pipeline"]
             if not ran:
                 if t["restrict"]:
+                    next(it)
+                for _x in t["extra"]:
                     next(it)
                 if "nonadjacent_swap:ShortestPaths" in badkeys:
                     # the router contract fails in the model exactly where the spec-level check saw the off-edge SWAP
@@ -745,11 +785,17 @@ def main(run):
                 stats["restrictions_compared"] = stats.get("restrictions_compared", 0) + 1
                 if not ok:
                     found.setdefault("model:restrict", ("restrict_connectivity_qubits model and implementation disagree", {"spec": spec, "model_only": True}))
+            for _x in t["extra"]:
+                okx = parse_coq(next(it))
+                stats["star_placer_model_compared"] = stats.get("star_placer_model_compared", 0) + 1
+                if not okx:
+                    found.setdefault("model:star_placer", ("StarConnectivityPlacer model and implementation disagree", {"spec": spec, "model_only": True}))
     default_transpiler_cases(run, found, stats, rng)
+    restrict_cases(run, found, stats, rng)
     for key, (what, rp) in sorted(found.items()):
         run.find(key, what, rp, concrete=not rp.get("model_only", False))
     run.notes["stats"] = stats
-    run.not_proved += ["placers (Subgraph's isomorphism search, Random's sampling, ReverseTraversal) are not modelled: only their contract, checked per run",
+    run.not_proved += ["placers Subgraph (isomorphism search), Random (sampling), ReverseTraversal are not modelled: only their contract, checked per run (StarConnectivityPlacer is modelled concretely and proved to meet the contract)",
                        "the unroller's semantic premise (C10) and the router's (C09) are premises of pipeline_ok",
                        "operator equality for pipelines with an unroller is tested with tolerance 1e-7, not proved"]
     return run.finish(level="proof", rule=RULE)
